@@ -116,7 +116,7 @@ def generate(tier, rng):
         n = rng.choice(G.WIDE_WORDS + [64, 64, 128])
         f = rng.choice([0, 0, 0, 1, 3, n // 2])
         r = rng.choice(ROUNDS)
-        k = 1   # the quantifier is over integer inputs (scalars); arrays of wide integers are judged by C11
+        k = rng.choice([1, 1, 1, 2, 3])   # mostly scalars (the quantifier); small arrays of wide integers as well (C11's D13 is repaired)
         vals = [_big_ints(rng, n, f) for _ in range(k)]
         yield 'W3 %s %d %d %s %s %s' % ('s' if signed else 'u', n, f, r, rng.choice(['ctor', 'call', 'setval', 'setitem']),
                                         tok_list([str(v) for v in vals]))
